@@ -688,6 +688,8 @@ pub fn run_main() {
                     "hash:v2-commitment-from-vector-files",
                     "hash:skipped-undefined-v2-proof",
                     "perturbed-encodings-accepted",
+                    "g1:computed-infinity",
+                    "g2:computed-infinity",
                 ],
             },
             SubCheck {
